@@ -327,10 +327,15 @@ Section gen.
                              else retro_ctx need r (update_nth (N.to_nat id) (add_ctx need) tab)
                  end
     end.
+  (* generator.signatureChanged: a generated method got a context parameter or an error result: every method is
+     regenerated (callers that found it by its signature are not on its origin path) *)
+  Definition all_dirty (changed : bool) (tab : table) : table := if changed then map (set_dirty true) tab else tab.
+  Definition tab_changed (old new : table) : bool :=
+    negb (list_eqb (fun a b => Bool.eqb (g_ret_err a) (g_ret_err b) && (List.length (g_ctx a) =? List.length (g_ctx b))%nat) old new).
   Definition require_context (ctx : bctx) (need : ty) : M bool :=
     fun st => if existsb (ty_eqb need) (bc_context ctx) then GOk (true, st)
               else match retro_ctx need (origin_path (b_tab st) (bc_id ctx)) (b_tab st) with
-                   | Some tab => GOk (true, set_tab tab st)
+                   | Some tab => GOk (true, set_tab (all_dirty (tab_changed (b_tab st) tab) tab) st)
                    | None => GOk (false, st)
                    end.
 
@@ -349,7 +354,7 @@ Section gen.
     fun st => match nth_error (b_tab st) (N.to_nat (bc_id ctx)) with
               | Some m => if g_ret_err m then GOk (true, st)
                           else match retro_err (origin_path (b_tab st) (bc_id ctx)) (b_tab st) with
-                               | Some tab => GOk (true, set_tab tab st)
+                               | Some tab => GOk (true, set_tab (all_dirty (tab_changed (b_tab st) tab) tab) st)
                                | None => GOk (false, st)
                                end
               | None => GPanic 2
